@@ -33,12 +33,24 @@ func VerifC04BucketsSetup() {
 	verifC04Queries[9] = verifParseSelect("select k, sum(id), avg(id), median(id), json_agg(id), var(id), stdev(id) from t group by k")
 }
 
+var verifC04Big bool
+
 var verifC04Menu = []string{"a", " A ", "b", "1", "x:y"}
 var verifC04NumMenu = []string{"1", "1.0"}
 
 // verifC04KeyCell: a key from one of two families - texts with case / blank / delimiter variants
 // next to integers, or the spellings of small numbers as integer, float and text.
+var verifC04BigInts = []int64{9007199254740992, 9007199254740993, 9223372036854775807, 9223372036854775806}
+
 func verifC04KeyCell(tag string, numeric bool) value.Primary {
+	if verifC04Big {
+		// neighbouring 64-bit integers that a float64 cannot tell apart
+		c := verifChoice(tag, 1+len(verifC04BigInts))
+		if c == 0 {
+			return value.NewNull()
+		}
+		return value.NewInteger(verifC04BigInts[c-1])
+	}
 	menu := verifC04Menu
 	if numeric {
 		menu = verifC04NumMenu
@@ -82,7 +94,9 @@ func VerifC04Buckets() {
 	scope := NewReferenceScope(tx)
 	flags := tx.Flags
 	n := verifBound(3, 4)
-	numeric := verifChoice("family", 2) == 1
+	family := verifChoice("family", 3)
+	numeric := family == 1
+	verifC04Big = family == 2
 	keys := make([]value.Primary, n)
 	rows := make([][]value.Primary, n)
 	for i := 0; i < n; i++ {
